@@ -65,6 +65,14 @@ DEAD_CODE = [
 ]
 
 
+# operands that are named but never evaluated (sizeof) and architectural aliases used as destinations
+UNEVALUATED = [
+    ("{ RdV = sizeof(RsV); }", {"sizeof_only_operand"}), ("{ RddV = sizeof(RssV) + RtV; }", {"sizeof_only_operand"}),
+    ("{ int16_t a = RtV; RdV = sizeof(a) + sizeof(RsV); }", {"sizeof_only_operand"}),
+    "{ RdV = RsV + sizeof(RsV); }", "{ RdV = sizeof(RsV); ReV = RsV; }", "{ int16_t a = RtV; RdV = sizeof(a); }",
+    ("{ HEX_REG_ALIAS_PC = RsV; }", {"alias_pc_written"}), ("{ if (PuV) { HEX_REG_ALIAS_PC = RsV + 4; } }", {"alias_pc_written"}),
+    "{ HEX_REG_ALIAS_USR = RsV; }", "{ HEX_REG_ALIAS_LR = RsV; RdV = HEX_REG_ALIAS_LR; }", "{ HEX_REG_ALIAS_SP = HEX_REG_ALIAS_SP + 8; }",
+]
 # operators the lowering model does not cover (the per-output properties need no model): division and remainder
 DIVISIONS = [
     "{ RddV = RssV / RttV; }", "{ RddV = RssV / RtV; }", "{ uint32_t a = RsV; RdV = a / RtV; }", "{ RdV = RsV / PtV; }", "{ RddV = RssV / (RtV + RuV); }",
@@ -424,7 +432,7 @@ def run_prop(prop: str, tier: str, replay=None) -> int:
     # ---- generated programs ------------------------------------------------------------------------
     n_clean, n_wild = (120, 120) if tier == "quick" else (1500, 1500)
     items, gstats = textcheck.gen_run(n_clean, n_wild, CLEAN_FORBIDDEN[prop], rng_salt=int(prop[1:]),
-                                      extra_programs=REPEATS + DIVISIONS + (DEAD_CODE if prop == "C16" else []) + (DEAD_COMPOUND_ARMS + CONST_STORES if prop in ("C11", "C16", "C10") else []))
+                                      extra_programs=REPEATS + DIVISIONS + (UNEVALUATED if prop in ("C10", "C11", "C12") else []) + (DEAD_CODE if prop == "C16" else []) + (DEAD_COMPOUND_ARMS + CONST_STORES if prop in ("C11", "C16", "C10") else []))
     # sub-routines whose compiled body sets a compiler temporary h_tmpN (flat namespace shared with callers)
     tmp_callees = [n for n, _, _, text in rc.sub_routine_defs(rc.compiler()) if 'SETL("h_tmp' in text]
     for it in items:
